@@ -37,6 +37,8 @@ var exprSpans = func() map[string][2]int {
 		"Attr.f":        one("<i title={ f() }"),
 		"CondAttr.f":    one("data-x={ f() }"),
 		"Style.f":       one("<div style={ f() }>"),
+		"StyleSlice.f":  one(`<div style={ []any{"color:red", f,`),
+		"StyleSlice.g":  one(`<div style={ []any{"color:red", f,`),
 		"ScriptExpr.f1": one("var v = {{ f1() }};"),
 		"ScriptExpr.f2": one(`var s = "{{ f2() }}";`),
 	}
